@@ -31,8 +31,9 @@ def regenerate_all():
         translate_alias()
     except Broken as b:
         ALIAS_BROKEN = b
-    from lib import drvgen
+    from lib import drvgen, apigen
     drvgen.translate()
+    apigen.translate()
     from lib import blegen
     BLE_BROKEN = None
     try:
